@@ -90,7 +90,7 @@ PROPS["C02"] = {
     "bounds": "engine M: linearizability by symbolic enumeration of all program-order-respecting total orders (<= 6 operations incl. the drain), real-time order from the first/last visible step of every call; BUFFER_SIZE 2 (quick) / 4 (thorough); origin any u32",
     "outside": "histories with more than 6 operations; BUFFER_SIZE > 4; orderings weaker than SC; crossbeam channel (sequential K scripts only)",
     "assumptions": [_M_NOTE, "capacity rule as in the statement: a rejected send is explained when (events in the queue) + (calls in progress during the send) >= BUFFER_SIZE at its linearization point; an empty answer needs an empty queue at its linearization point"],
-    "m": [M("c02_atomic_lin_1p2c_n2_k2"), M("c02_atomic_lin_2p1c_n2_k1"), M("c02_atomic_lin_pp_cc_n2_k1"), M("c02_fullsync_lin_2p1c_n2_k1"), M("c02_zc_atomic_lin_p_cc_n2_k1", "thorough"),
+    "m": [M("c02_atomic_lin_1p2c_n2_k2"), M("c02_atomic_lin_2p1c_n2_k1"), M("c02_atomic_lin_pp_cc_n2_k1", "thorough"), M("c02_fullsync_lin_2p1c_n2_k1"), M("c02_zc_atomic_lin_p_cc_n2_k1", "thorough"),
           M("c02_atomic_lin_2p2c_n2_k1", "thorough"), M("c02_atomic_lin_2p2c_n2_k2", "thorough"), M("c02_atomic_lin_2p1c_n4_k3", "thorough"), M("c02_fullsync_lin_2p2c_n2_k1", "thorough"),
           M("c02_zc_atomic_lin_pp_cc_n2_k1", "thorough"), M("c02_zc_fullsync_lin_p_cc_n2_k1", "thorough")],
     "k": [],
@@ -142,7 +142,7 @@ PROPS["C18"] = {
     "bounds": "engine M: atomic-flag stack, 2-3 threads x <=2 (quick) / 3 (thorough) push/pop, capacity 2 / 4, strict linearizability against a bounded LIFO; the two non-blocking queues through the MIR of the zero-copy rings they wrap (linearizable FIFO, see C02); engine K: sequential scripts L=5..6 on the real atomic-flag Stack and the two NonBlockingQueue types against array models",
     "outside": "the parking-lot stack (parking_lot::RawMutex is dependency code for engine M, and Kani 0.68 crashes with an internal compiler error in its intrinsics pass when a harness reaches it -- the harness was removed); METRICS/DEBUG=true instantiations; 'long free-running multi-core runs' (not solver-based)",
     "assumptions": [_M_NOTE],
-    "m": [M("c18_stack_push_vs_pop_n2_k1"), M("c18_stack_3thr_n2_k1"), M("c18_stack_full_boundary_n2_k2"), M("c18_queue_atomic_lin_p_cc_n2_k1"), M("c18_queue_fullsync_lin_p_cc_n2_k1"),
+    "m": [M("c18_stack_push_vs_pop_n2_k1"), M("c18_stack_3thr_n2_k1"), M("c18_stack_full_boundary_n2_k2"), M("c18_queue_atomic_lin_p_cc_n2_k1", "thorough"), M("c18_queue_fullsync_lin_p_cc_n2_k1"),
           M("c18_stack_3thr_n4_k2", "thorough"), M("c18_stack_2x3_n2_k1", "thorough"), M("c18_queue_atomic_lin_pp_c_c_n2_k1", "thorough")],
     "k": [H("c18::c18_atomic_stack_n2_l6", inst="non_blocking_atomic_stack::Stack<u32,2,false,false>", bounds="L=6", oracle="array LIFO model", stubs=_C08_STUBS),
           H("c18::c18_atomic_queue_n2_l5", inst="atomic::NonBlockingQueue<u32,2,0>", bounds="L=5", oracle="array FIFO model", stubs=_C08_STUBS),
@@ -154,7 +154,7 @@ PROPS["C19"] = {
     "bounds": "engine M: 2 (quick) / 3 (thorough) recording threads x <=2 inc + one reader x 2 probe; count exact, every probed / final (count, average) pair equals the update function folded over some order of the measurements; f32 arithmetic ABSTRACTED by bit-vector mixing functions (the claim does not depend on numeric values). engine K: real f32 semantics, sequential, two finite measurements in [-1000, 1000]: average == mean within 1e-3 relative",
     "outside": "the numeric claim for more than 2 measurements; counts at the u32::MAX reset (excluded by the statement); lightweight_probe (documented as unsynchronised)",
     "assumptions": [_M_NOTE, "engine M replaces IEEE f32 +,*,/ by fixed bit-vector mixing functions in BOTH the code and the oracle"],
-    "m": [M("c19_two_writers_one_reader"), M("c19_two_writers_two_each"), M("c19_three_writers_one_reader", "thorough"), M("c19_two_writers_two_each_reader", "thorough")],
+    "m": [M("c19_two_writers_one_reader"), M("c19_two_writers_two_each", "thorough"), M("c19_three_writers_one_reader", "thorough"), M("c19_two_writers_two_each_reader", "thorough")],
     "k": [H("c19::c19_mean_of_two", inst="AtomicIncrementalAverage64", bounds="2 measurements in [-1000,1000], real f32", oracle="|avg - mean| <= 1e-3 * max(1,|mean|); pairs (1,a) and (2,mean)")],
     "k_budget": {"quick": {"jobs": 1, "timeout_s": 1200, "mem_gb": 14}},
 }
@@ -172,7 +172,7 @@ PROPS["C04"] = {
     "bounds": "engine M: uni movable full-sync and atomic channels, MAX_STREAMS 1 (and 2 with one stream created, atomic channel), entry points send and reserve_slot + try_send_reserved, one stream whose task is driven by an executor model (poll_next; park when Pending; re-poll when its waker was invoked); 1 producer x 1-2 sends (quick), 2 producers / 3 sends with BUFFER_SIZE 4 (thorough); stream either never polled before or parked with its waker registered; violation = quiescent state with producers returned, task parked and un-woken, event pending; functions: <channel>::send, StreamsManagerBase::{wake_stream, register_stream_waker, keep_stream_running}, MutinyStream::poll_next, <channel>::consume, ring publish/consume",
     "outside": "send_with / send_with_async wake rules (same rule as send in the source, not encoded) and the Multi channels' send_derived; two streams created at once; Tokio's own wake-to-poll latency (the model re-polls whenever woken); zero-copy and crossbeam channels",
     "assumptions": [_M_NOTE, "a Waker is an abstract task id; Waker::{clone, will_wake, wake_by_ref} are intrinsics; ogre_sync::lock's retry ladder is encoded as one retrying CAS after its MIR was checked to be exactly that"],
-    "m": [M("c04_full_sync_first_park_vs_send"), M("c04_full_sync_parked_vs_send"), M("c04_atomic_first_park_vs_send"), M("c04_atomic_parked_vs_reserved_ms2"), M("c04_atomic_parked_vs_send_ms2"), M("c04_atomic_parked_vs_reserved_ms1", "thorough"), M("c04_atomic_parked_vs_two_sends", "thorough"),
+    "m": [M("c04_full_sync_first_park_vs_send"), M("c04_full_sync_parked_vs_send"), M("c04_atomic_first_park_vs_send"), M("c04_atomic_parked_vs_reserved_ms2"), M("c04_atomic_parked_vs_send_ms2"), M("c04_atomic_parked_k2_vs_send_n4"), M("c04_full_sync_parked_k2_vs_send_n4"), M("c04_atomic_parked_vs_reserved_ms1", "thorough"), M("c04_atomic_parked_vs_two_sends", "thorough"),
           M("c04_full_sync_parked_vs_two_producers", "thorough"), M("c04_atomic_parked_vs_three_sends_n4", "thorough")],
     "k": [],
 }
@@ -213,7 +213,8 @@ PROPS["C10"] = {
         H("c10::c10_shape_ms2_cdcc_o0", inst="StreamsManagerBase<2>", bounds="create, drop, create, create; origin 0", stubs=_C10_STUBS, ignore_failed=_DEALLOC_ARTEFACT),
         H("c10::c10_shape_ms2_ccddcc_wrap", inst="StreamsManagerBase<2>", bounds="create, create, drop(any), drop, create, create; origin 2^32-3 (wraps)", stubs=_C10_STUBS, ignore_failed=_DEALLOC_ARTEFACT),
         H("c10::c10_shape_ms4_cccdc_o0", inst="StreamsManagerBase<4>", bounds="create x3, drop(any live), create; origin 0", stubs=_C10_STUBS, ignore_failed=_DEALLOC_ARTEFACT),
-        H("c10::c10_recycle1_arc_atomic", inst="ChannelMultiArcAtomic<u32,2,1>", bounds="history A:create, send(any u32), (consume)?, drop; B:create (recycles A's id), consume; origin 0", oracle="B yields nothing that was sent before its creation", stubs=_C10_CH_STUBS, ignore_failed=_DEALLOC_ARTEFACT),
+        H("c10::c10_recycle1_leftover_arc_atomic", inst="ChannelMultiArcAtomic<u32,2,1>", bounds="history A:create, send(any u32), drop WITHOUT consuming; B:create (recycles A's id), consume; origin 0", oracle="B yields nothing that was sent before its creation", stubs=_C10_CH_STUBS, ignore_failed=_DEALLOC_ARTEFACT),
+        H("c10::c10_recycle1_arc_atomic", tier="thorough", inst="ChannelMultiArcAtomic<u32,2,1>", bounds="history A:create, send(any u32), (consume)?, drop; B:create (recycles A's id), consume; origin 0", oracle="B yields nothing that was sent before its creation", stubs=_C10_CH_STUBS, ignore_failed=_DEALLOC_ARTEFACT, group="g3"),
         H("c10::c10_recycle1_ogre_arc_atomic", tier="thorough", inst="ChannelMultiOgreArcAtomic<u32,2,1>", bounds="same history; origin 0", stubs=_C10_CH_STUBS, ignore_failed=_DEALLOC_ARTEFACT, group="g5", mem_gb=40, jobs=1),
         H("c10::c10_recycle1_arc_full_sync", tier="thorough", inst="ChannelMultiArcFullSync<u32,2,1>", stubs=_C10_CH_STUBS, ignore_failed=_DEALLOC_ARTEFACT, group="g3"),
         H("c10::c10_recycle1_arc_crossbeam", tier="thorough", inst="ChannelMultiArcCrossbeam<u32,2,1>", stubs=_C10_CH_STUBS, ignore_failed=_DEALLOC_ARTEFACT, group="g3"),
